@@ -9,8 +9,83 @@ RULE = ("Cases are Boolean feature models: (a) exhaustively every tree shape wit
         "20 000-shape slice of 8 in thorough) with every partition of children into relations and every 0<=min<=max<=k, "
         "(b) random boolean_any models up to 12 features (all relation kinds, several relations per parent), (c) the "
         "same with 1-3 logical constraints over the eight operators. Non-trivial: model with a mutex/[a,b]/(0,0) "
-        "relation, or >=2 relations under one parent, or depth>=3; distinct = distinct canonical JSON.")
+        "relation, or >=2 relations under one parent, or depth>=3; distinct = distinct canonical JSON. (d) large models "
+        "(groups of up to 90 leaves, counts far above 2^53) against an independent exact big-integer counter that is itself "
+        "cross-checked against brute force on every small case.")
 ASSUMPTIONS = ["exact counts come from vf/semantics.py (brute-force enumeration, <= 12 features)"]
+
+
+def exact_tree_count(f):
+    """Number of configurations of f's subtree given f is selected - exact integer arithmetic, written
+    independently of the library: per relation, the number of ways to pick k children with k in [min, max] is
+    the coefficient of x^k in prod(1 + c_i x).  Used where brute force cannot reach (big groups); on every small
+    case it is itself cross-checked against the brute-force enumerator."""
+    total = 1
+    for r in f["rels"]:
+        counts = [exact_tree_count(c) for c in r["children"]]
+        poly = [1]
+        for c in counts:
+            nxt = poly + [0]
+            for k in range(len(poly)):
+                nxt[k + 1] += poly[k] * c
+            poly = nxt
+        hi = len(counts) if r["max"] == -1 else min(r["max"], len(counts))
+        total *= sum(poly[r["min"]:hi + 1])
+    return total
+
+
+def check_large(case):
+    from flamapy.metamodels.fm_metamodel.operations import FMEstimatedConfigurationsNumber
+    fm = build.build(case)
+    got = lib(lambda: FMEstimatedConfigurationsNumber().execute(fm).get_result())
+    if isinstance(got, Raised):
+        return [(f"C13.raised:{got.label}", got.text)]
+    want = exact_tree_count(case["root"])
+    if isinstance(got, bool) or not isinstance(got, int):
+        return [("C13.not-an-int", repr(got))]
+    if not case["ctcs"] and got != want:
+        return [("C13.estimate-not-exact", f"estimate {got}, exact {want} (difference {got - want})")]
+    if case["ctcs"] and got < want and all(_is_tautology(c["ast"]) for c in case["ctcs"]):
+        return [("C13.estimate-below-exact", f"estimate {got} < exact {want} (constraints are tautologies)")]
+    return []
+
+
+def _is_tautology(e):
+    from vf import logic
+    try:
+        return logic.equiv(e, ["OR", ["T", "$t"], ["NOT", ["T", "$t"]]])
+    except (KeyError, ValueError):
+        return False
+
+
+def large_models():
+    """Models beyond brute force: wide groups of up to 90 leaves (binomials above 2^53), deep products."""
+    from hypothesis import strategies as st
+
+    @st.composite
+    def gen(draw):
+        n_groups = draw(st.integers(1, 4))
+        rels = []
+        idx = [0]
+
+        def leaf():
+            idx[0] += 1
+            return build.feat(f"L{idx[0]}")
+        for _ in range(n_groups):
+            k = draw(st.one_of(st.integers(2, 12), st.integers(40, 90)))
+            lo = draw(st.integers(0, k))
+            hi = draw(st.one_of(st.integers(lo, k), st.just(-1)))
+            kids = [leaf() for _ in range(k)]
+            if draw(st.booleans()):      # some children get a small subtree
+                j = draw(st.integers(0, k - 1))
+                kids[j]["rels"].append(build.rel(0, 1, [leaf(), leaf()]))
+            rels.append(build.rel(lo, hi, kids))
+        root = build.feat("Root", rels)
+        ctcs = []
+        if draw(st.integers(0, 2)) == 0:
+            ctcs = [{"name": "T", "ast": ["OR", ["T", "L1"], ["NOT", ["T", "L1"]]]}]
+        return {"root": root, "ctcs": ctcs}
+    return gen()
 
 
 def check(case):
@@ -20,10 +95,15 @@ def check(case):
     got = lib(lambda: FMEstimatedConfigurationsNumber().execute(fm).get_result())
     if isinstance(got, Raised):
         return [(f"C13.raised:{got.label}", got.text)]
+    again = lib(lambda: (_bool.long_lived(FMEstimatedConfigurationsNumber).execute(fm), _bool.long_lived(FMEstimatedConfigurationsNumber).execute(fm).get_result())[1])
+    if isinstance(again, Raised) or again != got:
+        out.append(("C13.reused-object-differs", f"fresh object {got!r}, long-lived object {getattr(again, 'text', again)!r}"))
     if isinstance(got, bool) or not isinstance(got, int):
         out.append(("C13.not-an-int", repr(got)))
         return out
     tree_n = len(semantics.tree_configs(case))
+    if exact_tree_count(case["root"]) != tree_n:
+        raise AssertionError("harness: exact_tree_count disagrees with the brute-force enumerator")
     if not case["ctcs"]:
         if got != tree_n:
             out.append(("C13.estimate-not-exact", f"estimate {got}, exact {tree_n}"))
@@ -38,7 +118,21 @@ def nontrivial(case):
     return _bool.structure_nontrivial(case)
 
 
+def _large_classes(case):
+    out = set()
+    for r, _ in build.iter_rels(case["root"]):
+        if len(r["children"]) >= 57:
+            out.add("group>=57")
+        if r["max"] == -1:
+            out.add("rel:star")
+    if case["ctcs"]:
+        out.add("with-tautology")
+    return out
+
+
 SUBS = [
+    Sub("large-models", check_large, gen=lambda tier: large_models(), nontrivial=lambda case: True, classes=_large_classes,
+        n={"quick": 60, "thorough": 1500}, essential=["group>=57"]),
     Sub("shapes", check, enum=_bool.enum_shapes, nontrivial=nontrivial, classes=_bool.structure_classes, exhaustive=True),
     Sub("random-no-ctcs", check, gen=lambda tier: _bool.random_models(False), nontrivial=nontrivial,
         classes=_bool.structure_classes, n={"quick": 800, "thorough": 6000},
